@@ -77,7 +77,7 @@ def run(v):
                 f.write(json.dumps(p[1]) + "\n")
                 n += 1
     trace = os.path.join(wd, "trace.ndjson")
-    rc, out, err = common.run_hv(["c15", "--cases", cases, "--chars", "abAB'’" if thorough else "abA'",
+    rc, out, err = common.run_hv(["c15", "--cases", cases, "--chars", "abAB'’" if thorough else "abAB'",
                                   "--stride", 1 if thorough else 6, "--out", trace, "--seed", v.seed,
                                   "--curated-queries", 6000 if thorough else 500,
                                   "--dist-pairs", 5000 if thorough else 500], timeout=7200)
